@@ -199,6 +199,11 @@ func (t *SimTransport) Do(req *http.Request) (*http.Response, error) {
 		}
 	}
 
+	ci.Rec.ReqMethod, ci.Rec.ReqPath = req.Method, req.URL.EscapedPath()
+	if o := req.URL.Opaque; o != "" {
+		ci.Rec.ReqPath = strings.TrimPrefix(o, "//"+req.URL.Host)
+	}
+
 	if kind == "replay" && req.GetBody == nil && req.Body != nil && req.Body != http.NoBody {
 		// a streamed body cannot be replayed: an intermediary would not retry this request
 		ci.Fault, f, kind = nil, nil, ""
